@@ -454,6 +454,10 @@ func opCodec(pi *pkgInfo, c *Cmd) {
 func opCuts(pi *pkgInfo, c *Cmd) {
 	ref := bytesFromInts(c.Ref)
 	apis := []string{"UnmarshalBebop", "DecodeBebop", "DecodeBebop (last bytes with io.EOF)"}
+	if c.Cid%2 == 1 {
+		// a standard reader that also implements io.ByteReader, io.Seeker, io.WriterTo ...
+		apis = append(apis, "DecodeBebop (bytes.Reader)")
+	}
 	m := 0
 	for _, api := range apis {
 		for k := 0; k < len(ref); k++ {
@@ -479,6 +483,9 @@ func cutEvent(pi *pkgInfo, c *Cmd, m int, api string, in []byte) *Event {
 	case "DecodeBebop":
 		pr := &posReader{data: in}
 		e.Res, e.Msg, e.Big, e.Alloc = call(len(in), func() error { return rec.DecodeBebop(pr) })
+	case "DecodeBebop (bytes.Reader)":
+		br := bytes.NewReader(in)
+		e.Res, e.Msg, e.Big, e.Alloc = call(len(in), func() error { return rec.DecodeBebop(br) })
 	default:
 		// the reader hands out the last bytes it has together with io.EOF (the io.Reader contract allows it)
 		pr := &posReader{data: in, dataEOF: true}
